@@ -423,8 +423,20 @@ func genQueries(r *prng.R, w *world, n int) []HB {
 			b := have[r.Intn(len(have))]
 			out = append(out, append(nn(b), alphabet[r.Intn(4)]))
 		case len(have) > 0 && i%4 == 2:
-			b := have[r.Intn(len(have))]
-			out = append(out, nn(b[:r.Intn(len(b)+1)]))
+			// a proper prefix of a present key that is itself absent, if there is one
+			q := nn(have[r.Intn(len(have))])
+			for t := 0; t < 12; t++ {
+				b := have[r.Intn(len(have))]
+				if len(b) == 0 {
+					continue
+				}
+				c := b[:r.Intn(len(b))]
+				if _, ok := w.contents[string(c)]; !ok {
+					q = nn(c)
+					break
+				}
+			}
+			out = append(out, q)
 		default:
 			out = append(out, genKey(r, nil))
 		}
@@ -825,6 +837,35 @@ func mutate(r *prng.R, base Mut, other *Mut, n int) []Mut {
 	return out
 }
 
+// forged: fabricated proofs presented for the trusted (non-empty) root: a
+// single nil entry, a single hash entry carrying the empty hash, a single hash
+// entry carrying the trusted root itself, and the honest proof of an unrelated
+// one-key tree re-labelled with the trusted root, each in both versions.
+func forged(base Mut) []Mut {
+	var empty hash.Hash
+	empty.Empty()
+	if bytes.Equal(base.Untrusted, empty[:]) {
+		return nil
+	}
+	tiny := buildTree([]KV{{K: []byte{0x42}, V: []byte("forged")}})
+	defer tiny.tree.Close()
+	var out []Mut
+	for ver := uint16(0); ver <= 1; ver++ {
+		rsp, err := tiny.tree.SyncGet(ctx, &syncer.GetRequest{Tree: tiny.treeID(), Key: []byte{0x42}, ProofVersion: ver})
+		if err != nil {
+			panic(err)
+		}
+		t := mutOf("forged-tinytree: proof of an unrelated one-key tree with the trusted root as untrusted root", &rsp.Proof)
+		t.Untrusted = nn(base.Untrusted)
+		out = append(out,
+			Mut{What: "forged-nil: single nil entry", V: ver, Untrusted: nn(base.Untrusted), Entries: []HB{nil}},
+			Mut{What: "forged-emptyhash: single hash entry with the empty hash", V: ver, Untrusted: nn(base.Untrusted), Entries: []HB{append([]byte{0x02}, empty[:]...)}},
+			Mut{What: "forged-roothash: single hash entry with the trusted root", V: ver, Untrusted: nn(base.Untrusted), Entries: []HB{append([]byte{0x02}, base.Untrusted...)}},
+			t)
+	}
+	return out
+}
+
 // ---------- running candidates on the implementation ----------
 
 type oneShot struct {
@@ -891,6 +932,41 @@ type verdict struct {
 	accepted bool
 	wl       []KV
 	viol     string
+	ptr      *node.Pointer // what VerifyProof returned
+}
+
+// readPtr is the oracle's own reader of a verified subtree: the value /
+// absence of key under the pointer tree VerifyProof returned, "U" where the
+// tree only carries a hash.
+func readPtr(ptr *node.Pointer, depth node.Depth, key node.Key) string {
+	if ptr == nil {
+		return "A"
+	}
+	if ptr.Node == nil {
+		if ptr.Hash.IsEmpty() {
+			return "A"
+		}
+		return "U"
+	}
+	switch n := ptr.Node.(type) {
+	case *node.LeafNode:
+		if n.Key.Equal(key) {
+			return "F" + string(n.Value)
+		}
+		return "A"
+	case *node.InternalNode:
+		bl := depth + n.LabelBitLength
+		switch {
+		case key.BitLength() == bl:
+			return readPtr(n.LeafNode, bl, key)
+		case key.BitLength() < bl:
+			return "A"
+		case key.GetBit(bl):
+			return readPtr(n.Right, bl, key)
+		}
+		return readPtr(n.Left, bl, key)
+	}
+	return "U"
 }
 
 func verifyReal(w *world, m Mut) (v verdict) {
@@ -900,7 +976,8 @@ func verifyReal(w *world, m Mut) (v verdict) {
 		}
 	}()
 	var pv syncer.ProofVerifier
-	_, err1 := pv.VerifyProof(ctx, w.root.Hash, m.proof())
+	ptr, err1 := pv.VerifyProof(ctx, w.root.Hash, m.proof())
+	v.ptr = ptr
 	wl, err2 := pv.VerifyProofToWriteLog(ctx, w.root.Hash, m.proof())
 	if (err1 == nil) != (err2 == nil) {
 		v.viol = fmt.Sprintf("VerifyProof and VerifyProofToWriteLog disagree: %v / %v", err1, err2)
@@ -974,7 +1051,23 @@ func runVerify(c Case, sum *coqout.Summary, seen map[string]bool) groupResult {
 				res.violations = append(res.violations, map[string]any{"what": fmt.Sprintf("accepted proof: write log holds (%x,%x) which is not in the tree", e.K, e.V), "case": single(m)})
 			}
 		}
-		// S: no key resolves contrary to the contents
+		// S: the returned subtree stands for the trusted root, and read directly
+		// (without any fetch) no key resolves contrary to the contents
+		if h := v.ptr.GetHash(); !h.Equal(&w.root.Hash) {
+			res.violations = append(res.violations, map[string]any{"what": fmt.Sprintf("accepted proof: the subtree VerifyProof returned has hash %s, the trusted root is %s", h, w.root.Hash), "case": single(m)})
+		}
+		for _, k := range uni {
+			if a := readPtr(v.ptr, 0, k); a != "U" && a != truth(w, k) {
+				res.violations = append(res.violations, map[string]any{"what": fmt.Sprintf("accepted proof: in the subtree VerifyProof returned key %x resolves to %q, the tree says %q", k, a, truth(w, k)), "case": single(m)})
+				break
+			}
+		}
+		for _, kv := range w.sorted {
+			if readPtr(v.ptr, 0, node.Key(kv.K)) == "A" {
+				sum.Count("accepted-lie", "present key absent")
+			}
+		}
+		// S: through a remote-backed tree no key resolves contrary to the contents
 		known := 0
 		for _, k := range uni {
 			a, p := remoteGet(w.root, m.proof(), k)
@@ -1391,6 +1484,7 @@ func main() {
 			sum.Count("honest-proof", strings.SplitN(s.name, " ", 2)[0]+fmt.Sprintf(" v%d", s.proof.V))
 			sum.Count("honest-proof-entries", bucket(len(s.proof.Entries)))
 			ms := append([]Mut{base}, mutate(cr, base, prev, *nmut)...)
+			ms = append(ms, forged(base)...)
 			c := Case{Kind: "verify", KVs: kvs, Src: s.name, Keys: keys, Mutants: ms}
 			// the honest proof itself must be accepted
 			if v := verifyReal(w, base); !v.accepted {
